@@ -292,17 +292,16 @@ Proof.
   eexists. split; [vm_compute; reflexivity|]. split; [reflexivity|]. split; [cbn; tauto | reflexivity].
 Qed.
 
-(** The theorem also covers histories outside [op_wf] (a submit with two ids and one entry: task
-    (1, 1) exists in the job layer only); the cancel names both tasks, more events follow. *)
+(** (Histories outside [op_wf] no longer exist at the level of [step]: since the repair of finding F26
+    a submit whose ids and entries differ in number is refused - [Sys.bad_submit_lengths].) *)
 Definition orphan_ops : list op :=
   [OpSubmit None [0; 1] (Some 1) once_rq 0%Z (CMax 3) false None; OpCancel 1; OpOpen None].
-Example silent_example_orphan : ~ Forall op_wf orphan_ops /\ exists s outs pre post,
-  run (init_sys 0 2) orphan_ops = Ok (s, outs) /\ outs = pre ++ OEv (EvCanceled [(1, 0); (1, 1)]) :: post /\
-  post = [OEv (EvCompleted 1); OResp (RCancelOk [0; 1] 0); OEv (EvOpen 2); OResp (ROpen 2)].
+Example silent_example_orphan : ~ Forall op_wf orphan_ops /\ exists s outs,
+  run (init_sys 0 2) orphan_ops = Ok (s, outs) /\
+  outs = [OResp (RSubmitErr 6 0); OResp RCancelInvalid; OEv (EvOpen 1); OResp (ROpen 1)].
 Proof.
   split; [intros H; inversion H as [|? ? H1 _]; cbn in H1; lia|].
-  eexists. eexists. exists [OEv (EvSubmit 1 true 2); OResp (RSubmitOk 1 2 [0; 1]); OEv (EvJobCancel 1)]. eexists.
-  split; [vm_compute; reflexivity|]. split; reflexivity.
+  eexists. eexists. split; vm_compute; reflexivity.
 Qed.
 
 (** The model really emits a start whatever the job layer says: [process_task_started] on a task
